@@ -83,14 +83,61 @@ def crypto : Crypto world where
   dec_encO2O := by intros; rfl
   verify_iff := by intro sk m s; simp [world]
 
-/-- a Diffie–Hellman structure with the commutativity law `dh a (pub b) = dh b (pub a)` -/
+/-- an injective pairing with an elementary proof: `2^l * (2h+1)` -/
+def pair2 (l h : Nat) : Nat := 2 ^ l * (2 * h + 1)
+
+theorem pair2_inj : ∀ (l h l' h' : Nat), pair2 l h = pair2 l' h' → l = l' ∧ h = h' := by
+  intro l
+  induction l with
+  | zero =>
+    intro h l' h' e
+    cases l' with
+    | zero => simp [pair2] at e; omega
+    | succ k =>
+      exfalso
+      simp only [pair2, Nat.pow_zero, Nat.one_mul, Nat.pow_succ] at e
+      have : 2 ^ k * 2 * (2 * h' + 1) = 2 * (2 ^ k * (2 * h' + 1)) := by
+        rw [Nat.mul_comm (2 ^ k) 2, Nat.mul_assoc]
+      rw [this] at e
+      generalize 2 ^ k * (2 * h' + 1) = X at e
+      omega
+  | succ n ih =>
+    intro h l' h' e
+    cases l' with
+    | zero =>
+      exfalso
+      simp only [pair2, Nat.pow_zero, Nat.one_mul, Nat.pow_succ] at e
+      have : 2 ^ n * 2 * (2 * h + 1) = 2 * (2 ^ n * (2 * h + 1)) := by
+        rw [Nat.mul_comm (2 ^ n) 2, Nat.mul_assoc]
+      rw [this] at e
+      generalize 2 ^ n * (2 * h + 1) = X at e
+      omega
+    | succ k =>
+      simp only [pair2, Nat.pow_succ] at e
+      have e1 : 2 ^ n * 2 * (2 * h + 1) = 2 * (2 ^ n * (2 * h + 1)) := by
+        rw [Nat.mul_comm (2 ^ n) 2, Nat.mul_assoc]
+      have e2 : 2 ^ k * 2 * (2 * h' + 1) = 2 * (2 ^ k * (2 * h' + 1)) := by
+        rw [Nat.mul_comm (2 ^ k) 2, Nat.mul_assoc]
+      rw [e1, e2] at e
+      have e3 : pair2 n h = pair2 k h' := by simp only [pair2]; omega
+      obtain ⟨a, b⟩ := ih h k h' e3
+      exact ⟨by omega, b⟩
+
+/-- a Diffie–Hellman structure satisfying every stated law: identities `2k` and `2k+1` are each
+other's "negation" (same X25519 image `k`); X25519 is commutative; the KDF output determines its context -/
 def dhToy : DH where
   pub := id
-  dh a b := a + b
-  kdf s lo hi := s + lo + hi
+  mont x := x / 2
+  dh a u := a / 2 + u
+  kdf _ c := pair2 c.1 c.2
 
-theorem dhToy_comm (a b : Nat) : dhToy.dh a (dhToy.pub b) = dhToy.dh b (dhToy.pub a) := by
+theorem dhToy_comm (a b : Nat) : dhToy.dh a (dhToy.mont (dhToy.pub b)) = dhToy.dh b (dhToy.mont (dhToy.pub a)) := by
   simp [dhToy, Nat.add_comm]
+
+theorem dhToy_kdf_inj (s : Nat) (c : Nat × Nat) (s' : Nat) (c' : Nat × Nat)
+    (h : dhToy.kdf s c = dhToy.kdf s' c') : c = c' := by
+  obtain ⟨a, b⟩ := pair2_inj _ _ _ _ h
+  cases c; cases c'; simp_all
 
 end Term
 end AnySync.Space
